@@ -72,6 +72,28 @@ TARGETS = [
          params=[("bits", "int"), ("start", "optint"), ("end", "optint")]),
     dict(file="bitstring/bitarray_.py", cls="BitArray", func="_rol_msb0", lean="rol_msb0", mode="trace",
          params=[("bits", "int"), ("start", "optint"), ("end", "optint")]),
+    # ---- batch 2: mutators with a position, searches (guards, defaults, stream position bookkeeping) -------------------
+    dict(file="bitstring/bitarray_.py", cls="BitArray", func="insert", lean="ba_insert", mode="trace",
+         pynames=["bs", "pos"], params=[("pos", "int")], lens={"len(bs)": "len_bs"}, bools={"bs is self": "bs_is_self"}),
+    dict(file="bitstring/bitarray_.py", cls="BitArray", func="overwrite", lean="ba_overwrite", mode="trace",
+         pynames=["bs", "pos"], params=[("pos", "int")], lens={"len(bs)": "len_bs"}, bools={"bs is self": "bs_is_self"}),
+    dict(file="bitstring/bitstream.py", cls="BitStream", func="insert", lean="bs_insert", mode="trace",
+         pynames=["bs", "pos"], params=[("pos", "optint")], lens={"len(bs)": "len_bs"}, bools={"bs is self": "bs_is_self"},
+         attrs={"self._pos": ("self_pos", "int")}),
+    dict(file="bitstring/bitstream.py", cls="BitStream", func="overwrite", lean="bs_overwrite", mode="trace",
+         pynames=["bs", "pos"], params=[("pos", "optint")], lens={"len(bs)": "len_bs"}, bools={"bs is self": "bs_is_self"},
+         attrs={"self._pos": ("self_pos", "int")}),
+    dict(file="bitstring/bitstream.py", cls="BitStream", func="append", lean="bs_append", mode="trace", pynames=["bs"], params=[]),
+    dict(file="bitstring/bitstream.py", cls="BitStream", func="prepend", lean="bs_prepend", mode="trace", pynames=["bs"], params=[]),
+    dict(file="bitstring/bits.py", cls="Bits", func="find", lean="find", mode="trace",
+         pynames=["bs", "start", "end", "bytealigned"], params=[("start", "optint"), ("end", "optint"), ("bytealigned", "optbool")],
+         lens={"len(bs)": "len_bs"}, attrs={"bitstring.options.bytealigned": ("opt_bytealigned", "bool")}),
+    dict(file="bitstring/bits.py", cls="Bits", func="rfind", lean="rfind", mode="trace",
+         pynames=["bs", "start", "end", "bytealigned"], params=[("start", "optint"), ("end", "optint"), ("bytealigned", "optbool")],
+         lens={"len(bs)": "len_bs"}, attrs={"bitstring.options.bytealigned": ("opt_bytealigned", "bool")}),
+    dict(file="bitstring/bits.py", cls="Bits", func="__add__", lean="add", mode="trace", pynames=["bs"], params=[],
+         lens={"len(bs)": "len_bs"}),
+    dict(file="bitstring/array_.py", cls="Array", func="pop", lean="array_pop", mode="trace", pynames=["i"], params=[("i", "int")]),
     # Array: len(self) is the number of items, self._dtype.bitlength the item width in bits
     dict(file="bitstring/array_.py", cls="Array", func="insert", lean="array_insert", mode="trace",
          pynames=["i", "x"], params=[("i", "int")], attrs={"self._dtype.bitlength": ("itemsize", "int")}),
@@ -87,7 +109,8 @@ EXC = {"ValueError": ".value", "CreationError": ".value", "InterpretError": ".va
        "ReadError": ".read", "TypeError": ".type", "Error": ".bitstring", "ByteAlignError": ".byteAlign",
        "AssertionError": '(.internal "AssertionError")'}
 
-LEAN_T = {"int": "Int", "optint": "Option Int", "bool": "Bool", "slice": "Py.Slice"}
+LEAN_T = {"int": "Int", "optint": "Option Int", "bool": "Bool", "optbool": "Option Bool", "slice": "Py.Slice"}
+OPT = {"optint": "int", "optbool": "bool"}          # Optional[...] types and what `is not None` narrows them to
 
 
 class Untranslatable(Exception):
@@ -133,9 +156,9 @@ class Tr:
     def coerce(self, term, t, want):
         if t == want:
             return term
-        if t == "int" and want == "optint":
+        if (t, want) in (("int", "optint"), ("bool", "optbool")):
             return f"(some {term})"
-        if t == "none" and want == "optint":
+        if t == "none" and want in OPT:
             return "none"
         if isinstance(t, tuple) and isinstance(want, tuple) and len(t) == len(want):
             # only literal tuples reach here (built by expr), re-coerce componentwise
@@ -147,6 +170,8 @@ class Tr:
             return t1
         if {t1, t2} <= {"int", "optint", "none"}:
             return "optint"
+        if {t1, t2} <= {"bool", "optbool", "none"}:
+            return "optbool"
         raise Untranslatable(f"branches of different types {t1} / {t2}")
 
     # -- expressions ---------------------------------------------------------------------------------------------
@@ -242,19 +267,22 @@ class Tr:
     def narrowed(self, x, env):
         """env in which the Optional[int] expression x is the int bound to a fresh name."""
         v = self.new("v")
-        e2 = dict(env); e2[self.key(x)] = (v, "int")
+        e2 = dict(env); e2[self.key(x)] = (v, OPT[self.expr(x, env)[1]])
         return v, e2
 
     def cond(self, n, env):
         """Bool-valued Lean term for the Python condition n."""
+        if self.key(n) in self.spec.get("bools", {}):               # declared opaque condition (e.g. `bs is self`)
+            return self.spec["bools"][self.key(n)]
         nt = self.none_test(n)
         if nt:
             a, t = self.expr(nt[0], env)
-            if t == "int":
+            if t in ("int", "bool"):
                 return "false" if nt[1] else "true"
             if t == "none":
                 return "true" if nt[1] else "false"
-            self.need(t, "optint", n)
+            if t not in OPT:
+                raise Untranslatable(f"{ast.unparse(n)}: `is None` on a {t}")
             return f"({a}).isNone" if nt[1] else f"({a}).isSome"
         if isinstance(n, ast.BoolOp):
             first, rest = n.values[0], n.values[1:]
@@ -264,7 +292,7 @@ class Tr:
             nt = self.none_test(first)
             if nt:
                 a, t = self.expr(nt[0], env)
-                if t == "optint":
+                if t in OPT:
                     v, e2 = self.narrowed(nt[0], env)
                     if isinstance(n.op, ast.Or) and nt[1]:          # X is None or P(X)
                         return f"(match {a} with | none => true | some {v} => {self.cond(tail, e2)})"
@@ -297,7 +325,9 @@ class Tr:
         nt = self.none_test(n.test)
         if nt:
             a, t = self.expr(nt[0], env)
-            if t == "optint":
+            if t in ("int", "bool", "none"):
+                return self.expr(n.body if (t == "none") == nt[1] else n.orelse, env)
+            if t in OPT:
                 v, e2 = self.narrowed(nt[0], env)
                 none_branch, some_branch = (n.body, n.orelse) if nt[1] else (n.orelse, n.body)
                 x, tx = self.expr(none_branch, env)
@@ -437,10 +467,10 @@ class Tr:
             nt = self.none_test(s.test)
             if nt:
                 a, t = self.expr(nt[0], env)
-                if t in ("int", "none"):                              # decided by what is already known on this path
+                if t in ("int", "bool", "none"):                      # decided by what is already known on this path
                     taken = s.body if (t == "none") == nt[1] else s.orelse
                     return self.branch(taken, rest, env, ind)
-                if t == "optint":
+                if t in OPT:
                     v, e2 = self.narrowed(nt[0], env)
                     e0 = dict(env); e0[self.key(nt[0])] = ("none", "none")
                     nb, sb = (s.body, s.orelse) if nt[1] else (s.orelse, s.body)
@@ -451,7 +481,7 @@ class Tr:
                 nt = self.none_test(first)
                 if nt:
                     a, t = self.expr(nt[0], env)
-                    if t == "optint" and (isinstance(s.test.op, ast.Or) == nt[1]):
+                    if t in OPT and (isinstance(s.test.op, ast.Or) == nt[1]):
                         # `X is None or P(X)`  /  `X is not None and P(X)`: X is an int wherever P is evaluated AND in
                         # the branch taken when P decides
                         v, e2 = self.narrowed(nt[0], env)
@@ -486,6 +516,9 @@ class Tr:
                 return n
 
             def visit(self, n):
+                if isinstance(getattr(n, "ctx", None), (ast.Store, ast.Del)) and not isinstance(n, ast.Name):
+                    # an assignment / deletion target is an effect, not a value: keep its text, abstract only inside it
+                    return self.generic_visit(n)
                 if isinstance(n, ast.expr) and not isinstance(n, (ast.Starred,)):
                     if not (isinstance(n, ast.Constant) and not isinstance(n.value, (int, type(None)))
                             or isinstance(n, ast.Constant) and isinstance(n.value, bool)):
@@ -495,6 +528,11 @@ class Tr:
                             if t in ("int", "optint"):
                                 args.append(tr.coerce(a, t, "optint"))
                                 return ast.copy_location(ast.Name(id="_", ctx=ast.Load()), n)
+                            if t in ("bool", "optbool") and not isinstance(n, ast.Constant):
+                                # a Boolean value is recorded as 1 / 0 (None for an Optional[bool] that is None)
+                                b = a if t == "optbool" else f"(some {a})"
+                                args.append(f"(({b}).map fun (b : Bool) => if b then (1 : Int) else 0)")
+                                return ast.copy_location(ast.Name(id="_b", ctx=ast.Load()), n)
                             tr.fresh = fresh0
                         except Untranslatable:
                             pass
@@ -571,7 +609,7 @@ class Tr:
                 except Untranslatable:
                     self.fresh = saved
                     a, t = None, None
-                if t in ("int", "optint", "bool", "none"):
+                if t in ("int", "optint", "bool", "optbool", "none"):
                     k = self.key(tgt)
                     v = self.new(k.replace(".", "_"))
                     e2 = dict(env); e2[k] = (v, t)
@@ -579,6 +617,19 @@ class Tr:
                         e2[k] = ("none", "none")
                         return self.block(rest, e2, ind)
                     return f"{pad}let {v} : {lean_type(t)} := {a}\n{self.block(rest, e2, ind)}"
+        if isinstance(s, (ast.Assign, ast.AugAssign)) and self.key(s.targets[0] if isinstance(s, ast.Assign) else s.target) \
+                in self.spec.get("attrs", {}):
+            # an integer attribute of self that the function both reads and writes (e.g. self._pos): the write is an effect
+            # AND later reads see the new value
+            tgt = s.targets[0] if isinstance(s, ast.Assign) else s.target
+            val = s.value if isinstance(s, ast.Assign) else ast.BinOp(left=s.target, op=s.op, right=s.value)
+            a, t = self.expr(val, env)
+            self.need(t, "int", s)
+            k = self.key(tgt)
+            v = self.new(k.replace(".", "_"))
+            e1 = dict(env); e1[k] = (v, "int")
+            line, e2 = self.push(f'Py.Act.mk "{k} = _" [(some {v})]', e1, pad)
+            return f"{pad}let {v} : Int := {a}\n" + line + self.block(rest, e2, ind)
         if isinstance(s, (ast.Assign, ast.AugAssign, ast.AnnAssign, ast.Expr, ast.Delete)):
             line, e2 = self.push(self.act(s, env), env, pad)
             self.mark_dirty(s)
@@ -655,6 +706,8 @@ def signature(spec):
         ps.append(f"({v} : {lean_type(t)})")
     for k, v in spec.get("lens", {}).items():
         ps.append(f"({v} : Int)")
+    for k, v in spec.get("bools", {}).items():
+        ps.append(f"({v} : Bool)")
     ret = spec.get("ret")
     if spec.get("mode") == "trace":
         rt = "List Py.Act"
